@@ -12,6 +12,7 @@ import (
 	"testing"
 
 	commonv1 "github.com/apache/skywalking-banyandb/api/proto/banyandb/common/v1"
+	modelv1 "github.com/apache/skywalking-banyandb/api/proto/banyandb/model/v1"
 	propertyv1 "github.com/apache/skywalking-banyandb/api/proto/banyandb/property/v1"
 	"github.com/apache/skywalking-banyandb/pkg/verifh"
 )
@@ -108,5 +109,108 @@ func TestVerifC18Coordinator(t *testing.T) {
 		check([]int{r.Intn(nStates), r.Intn(nStates), r.Intn(nStates)})
 	}
 	s.Sample(map[string]any{"scope": "one key, revisions 1..4, every pair of replica states (81x81) plus seeded triples"})
+	queryDedup(s, ps)
 	s.Done()
+}
+
+// queryDedup: a query over replicas returns one value per key - the copy with the greatest revision - whatever
+// the replicas still hold and in whatever order their answers are merged. Every node answers with its copies
+// sorted by the order-by value (which may differ from revision to revision of a key); the coordinator's own
+// merge functions (sorted and unsorted) are fed seeded replica states.
+func queryDedup(s *verifh.Sink, ps *propertyServer) {
+	for c := 0; c < verifh.Pick(20000, 300000); c++ {
+		r := verifh.Rand("c18query", c)
+		nKeys, nNodes := 1+r.Intn(4), 2+r.Intn(2)
+		desc := r.Intn(2) == 0
+		type copyT struct {
+			rev int64
+			sv  byte
+		}
+		// per key: revisions 1..3 with a sort value each (changing or not)
+		revs := make([][]copyT, nKeys)
+		for k := range revs {
+			n := 1 + r.Intn(3)
+			sv := byte('a' + r.Intn(6))
+			for i := 0; i < n; i++ {
+				if r.Intn(2) == 0 {
+					sv = byte('a' + r.Intn(6))
+				}
+				revs[k] = append(revs[k], copyT{rev: int64(i + 1), sv: sv})
+			}
+		}
+		nodeProps := map[string][]*propertyWithMetadata{}
+		want := map[string]copyT{}
+		var hist []string
+		for n := 0; n < nNodes; n++ {
+			node := fmt.Sprint("n", n)
+			var list []*propertyWithMetadata
+			for k := range revs {
+				// a node holds one live copy of a key (the newest it has received), or none
+				if r.Intn(5) == 0 {
+					continue
+				}
+				cp := revs[k][r.Intn(len(revs[k]))]
+				id := fmt.Sprint("k", k)
+				list = append(list, &propertyWithMetadata{Property: &propertyv1.Property{Metadata: &commonv1.Metadata{Group: "g", Name: "n", ModRevision: cp.rev, CreateRevision: 1}, Id: id},
+					node: node, sortedValue: []byte{cp.sv}})
+				if w, ok := want[id]; !ok || cp.rev > w.rev {
+					want[id] = cp
+				}
+				hist = append(hist, fmt.Sprintf("%s:%s@%d=%c", node, id, cp.rev, cp.sv))
+			}
+			sort.SliceStable(list, func(i, j int) bool {
+				if desc {
+					return list[i].sortedValue[0] > list[j].sortedValue[0]
+				}
+				return list[i].sortedValue[0] < list[j].sortedValue[0]
+			})
+			if len(list) > 0 {
+				nodeProps[node] = list
+			}
+		}
+		stale := false
+		for _, l := range nodeProps {
+			for _, p := range l {
+				stale = stale || p.Metadata.ModRevision < want[p.Id].rev
+			}
+		}
+		s.Case(fmt.Sprint("query/", desc, hist), stale)
+		if c < 1 {
+			s.Sample(map[string]any{"replica_answers(node:key@revision=sort value)": hist, "descending": desc})
+		}
+		judge := func(path string, got []*propertyWithCount, ordered bool) {
+			seen := map[string]bool{}
+			bad := ""
+			for i, g := range got {
+				w, ok := want[g.Id]
+				switch {
+				case !ok:
+					bad = "a key nobody holds: " + g.Id
+				case seen[g.Id]:
+					bad = "key " + g.Id + " returned twice"
+				case g.Metadata.ModRevision != w.rev:
+					bad = fmt.Sprintf("key %s returned at revision %d, newest held revision is %d", g.Id, g.Metadata.ModRevision, w.rev)
+				case ordered && i > 0 && ((desc && got[i-1].sortedValue[0] < g.sortedValue[0]) || (!desc && got[i-1].sortedValue[0] > g.sortedValue[0])):
+					bad = fmt.Sprintf("not sorted at position %d", i)
+				}
+				seen[g.Id] = true
+				if bad != "" {
+					break
+				}
+			}
+			if bad == "" && len(seen) != len(want) {
+				bad = fmt.Sprintf("%d keys returned, %d held", len(seen), len(want))
+			}
+			if bad != "" {
+				s.Violation("c18:coordinator:query-dedup:"+path, map[string]any{"replica_answers(node:key@revision=sort value)": hist, "descending": desc, "discrepancy": bad})
+			}
+		}
+		sortDir := modelv1.Sort_SORT_ASC
+		if desc {
+			sortDir = modelv1.Sort_SORT_DESC
+		}
+		judge("sorted", ps.sortedQueryWithDedup(nodeProps, &propertyv1.QueryRequest{Limit: 100, OrderBy: &propertyv1.QueryOrder{TagName: "t", Sort: sortDir}}), true)
+		judge("unsorted", ps.simpleDedupWithoutSort(nodeProps), false)
+		s.Count("c18.coordinator.query_merges", 2)
+	}
 }
